@@ -9,6 +9,7 @@ fn main() {
             println!("{}", serde_json::to_string_pretty(&v).unwrap());
         }
         Some("sim") => sim::main(&args[2]),
+        Some("batch") => sim::batch(&args[2]),
         _ => {
             eprintln!("usage: watch_tools record-shapes <scratch-dir> | sim <input.json>");
             std::process::exit(2);
